@@ -88,7 +88,7 @@ static void run_case(Case &c)
     for(int i = 0; i < ncalls && g_w.violations_in_case < 10; i++)
     {
         OPN2_MIDIPlayer *d = r.chance(0.03) ? NULL : dev;
-        int fn = (int)r.below(82);
+        int fn = (int)r.below(84);
         std::string argc = "-", retc = "-";
         #define RET(cond_ok, name, rcval) do { retc = vfmt("%d", (int)(rcval)); if(!(cond_ok)) c.violation(std::string("oracle:documented-return:") + (name), vfmt("%s returned %d (args %s)", (name), (int)(rcval), argc.c_str())); } while(0)
         switch(fn)
@@ -295,6 +295,23 @@ static void run_case(Case &c)
             Bytes m; switch(r.below(6)) { case 0: m.assign(gm, gm + sizeof(gm)); break; case 1: m.assign(gs, gs + sizeof(gs)); break; case 2: m.assign(xg, xg + sizeof(xg)); break; case 3: m.assign(mv, mv + sizeof(mv)); break; case 4: m.assign(dp, dp + sizeof(dp)); break; default: { int n = r.range(0, 20); for(int j = 0; j < n; j++) m.push_back(r.byte()); } }
             if(r.chance(0.4) && !m.empty()) { int k = r.below(3); size_t p = r.below((uint32_t)m.size()); if(k == 0) m[p] = r.byte(); else if(k == 1) m.resize(p); else m.insert(m.begin() + (long)p, r.byte()); }
             ExactBuf eb(m); int rc = 0; API("opn2_rt_systemExclusive", rc = opn2_rt_systemExclusive(d, eb.p, eb.n)); if(!d) RET(rc == -1, "opn2_rt_systemExclusive", rc); else RET(rc == 0 || rc == 1, "opn2_rt_systemExclusive", rc); break;
+        }
+        case 82: case 83:
+        {   // arpeggio phrase: auto-arpeggio on, more notes of one program than the chips have channels, a pedal, some of the
+            // sharing notes released, then several render periods (the rotation walks the user lists of the shared channels)
+            if(!d) break;
+            uint8_t ch = (uint8_t)r.pick((const int[]){0, 1, 2});
+            if(r.chance(0.8)) API("opn2_setAutoArpeggio", opn2_setAutoArpeggio(d, 1));
+            int nk = r.range(7, 30), base = r.range(30, 60);
+            for(int j = 0; j < nk; j++) { int rc = 0; API("opn2_rt_noteOn", rc = opn2_rt_noteOn(d, ch, (uint8_t)(base + j), (uint8_t)r.range(30, 127))); (void)rc; }
+            int pk = (int)r.below(4);
+            if(pk == 0) API("opn2_rt_controllerChange", opn2_rt_controllerChange(d, ch, 66, 127));
+            else if(pk == 1) API("opn2_rt_controllerChange", opn2_rt_controllerChange(d, ch, 64, 127));
+            for(int j = 0, n = r.range(1, 6); j < n; j++) API("opn2_rt_noteOff", opn2_rt_noteOff(d, ch, (uint8_t)(base + r.below((uint32_t)nk))));
+            short pcm[2 * 512];
+            for(int j = 0, n = r.range(2, 8); j < n; j++) { int got = 0; API("opn2_generate", got = opn2_generate(d, 2 * 512, pcm)); (void)got; }
+            if(r.chance(0.5)) API("opn2_rt_controllerChange", opn2_rt_controllerChange(d, ch, pk == 0 ? 66 : 64, 0));
+            break;
         }
         case 80: case 81:
         {   // pedal phrase: a key re-struck and released under a pedal, the pedal lifted in between, then more notes than the chip has
